@@ -601,3 +601,12 @@ def expected_lines(b: Block, q='"', end_comment=False):
                 out.append((1, end(k)))
     out.append((0, end(b.type)))
     return out
+
+
+def symbolset_text(rng, n=None):
+    """a symbol file: the SYMBOLSET root (its own grammar alias, not one of the 19 block types) holding SYMBOL blocks"""
+    n = n if n is not None else rng.randint(0, 3)
+    body = []
+    for _ in range(n):
+        body += ["  " + l for l in render(gen_block(rng, "symbol", depth=0, max_items=5)).split("\n")]
+    return "\n".join(["SYMBOLSET"] + body + ["END"])
